@@ -33,7 +33,7 @@ UNITS = {
                assumes=['the keyword arm of ResolvedSortField::value is cut out mechanically (kani/sort_slices.tpl); that str_values returns the field\'s values is not verified']),
     'K10': dict(crate='searchlite-core', prefixes=['k10_'], title='exact-mode percentile (query/aggs/mod.rs QuantileState::percentile): no out-of-bounds index for any requested percent',
                files=['searchlite-core/src/query/aggs/mod.rs'],
-               bounded={'k10_percentile_exact_len0': 'no values', 'k10_percentile_exact_len1': 'one value', 'k10_percentile_exact_len2': 'two finite values (any percent bit pattern)'},
+               bounded={'k10_percentile_exact_len0': 'no values', 'k10_percentile_exact_len1': 'one value', 'k10_percentile_exact_len2': 'two finite values (any percent bit pattern)', 'k10_percentile_exact_len2_extremes_any_order': 'two finite values in either order, percent 0 and 100'},
                assumes=['values are finite floats; the t-digest path (more than 256 values) is not harnessed']),
     'K11': dict(crate='searchlite-core', prefixes=['k11_'], title='cursor text layer: hex_encode / from_str_radix agree on every byte value; SortValue <-> CursorValue round trip',
                files=['searchlite-core/src/api/reader.rs'],
